@@ -45,7 +45,10 @@ func HDecodeBody() {
 	case 48:
 		p = NewPayloadEap()
 	}
+	before := append([]byte{}, b...)
 	err := p.Unmarshal(b)
+	// read-only use of the input: a decoder does not write into the buffer it is given (C18)
+	vr.Assert("c04.input-unchanged", vr.EqBytes(b, before))
 	if err == nil {
 		vr.Cover("c04.body.accepted")
 	} else {
@@ -69,7 +72,10 @@ func HParseHeader() {
 func HDecodeMessage() {
 	b := vr.Input(vr.Param(0))
 	m := new(IKEMessage)
-	if err := m.Decode(b); err == nil {
+	before := append([]byte{}, b...)
+	err := m.Decode(b)
+	vr.Assert("c04.input-unchanged", vr.EqBytes(b, before))
+	if err == nil {
 		vr.Cover("c04.message.accepted")
 	} else {
 		vr.Cover("c04.message.rejected")
